@@ -77,6 +77,47 @@ def st_graph(draw, min_n=1, max_n=6, connected=None, no_isolated=False, labels=F
     return d
 
 
+@st.composite
+def st_lobes(draw, min_n=7, max_n=11, labels=False):
+    """chain of small connected 'lobes' (2-4 vertices, contiguous in the emission order) joined by single bridges:
+    non-monotone height profiles, i.e. emitters that are measured, reset and re-used"""
+    n = draw(st.integers(min_n, max_n))
+    P = rg.pairs(n)
+    mask = 0
+    lo = 0
+    prev = None
+    while lo < n:
+        size = min(n - lo, draw(st.integers(2, 4)))
+        if n - (lo + size) == 1:
+            size += 1
+        hi = lo + size
+        for v in range(lo + 1, hi):
+            u = draw(st.integers(lo, v - 1))
+            mask |= 1 << P.index((u, v))
+        extra = draw(st.lists(st.tuples(st.integers(lo, hi - 1), st.integers(lo, hi - 1)), max_size=3))
+        for a, b in extra:
+            if a != b:
+                mask |= 1 << P.index((min(a, b), max(a, b)))
+        if prev is not None:
+            a = draw(st.integers(prev[0], prev[1] - 1))
+            b = draw(st.integers(lo, hi - 1))
+            mask |= 1 << P.index((a, b))
+        prev = (lo, hi)
+        lo = hi
+    # a few transpositions of neighbouring vertices perturb the emission order
+    for _ in range(draw(st.integers(0, 2))):
+        i = draw(st.integers(0, n - 2))
+        perm = list(range(n))
+        perm[i], perm[i + 1] = perm[i + 1], perm[i]
+        mask = rg.relabel(n, mask, perm)
+    d = {"n": n, "mask": mask}
+    if labels:
+        lab = draw(st.one_of(st.none(), st.permutations(list(range(n)))))
+        if lab is not None:
+            d["labels"] = list(lab)
+    return d
+
+
 def connect(n, mask, draw, only_isolated=False):
     P = rg.pairs(n)
     if only_isolated:
